@@ -1089,7 +1089,7 @@ class SoC(LiteXModule, SoCCoreCompat):
             True  : "ROM",
             False : "RAM",
         }["w" not in ram_region.mode]
-        contents_size = 4*len(contents) # FIXME.
+        contents_size = (self.bus.data_width//8)*len(contents)
 
         # Size Check.
         if ram_region.size < contents_size:
